@@ -95,7 +95,15 @@ class PlanGen:
                 if idem or rng.random() < 0.7:
                     self._target[m] = round(self._target[m] + rng.choice([1.0, -1.0, 2.0, 0.5]), 3)
                     body.append(msg(S, "set", m, self._target[m], group=g))
-            body.append(msg(S, "wait", None, group=g))
+            if getattr(self, "watch", 0.0) and self.dets and rng.random() < self.watch:
+                # wait for the move while watching a second group (a failure there ends the wait early); the watched
+                # group usually finishes first
+                ga = self.group()
+                body.append(msg(S, "trigger", self.dets[0], group=ga))
+                body.append(msg(S, "wait", None, group=g, watch=[ga]))
+                body.append(msg(S, "wait", None, group=ga))
+            else:
+                body.append(msg(S, "wait", None, group=g))
         devs = devices if devices is not None else [d for d in self.dets if rng.random() < 0.8] or self.dets[:1]
         # the reading of a detector that cannot be replayed (trigger_and_read with rewindable=False): taken with
         # rewinding switched off, then something replayable follows before the next checkpoint
@@ -133,7 +141,7 @@ class PlanGen:
         mon = None
         if self.signals and rng.random() < monitor:
             mon = rng.choice(self.signals)
-            mkw = {"event_type": rng.choice(["value", "status"])} if getattr(self, "monitor_opts", 0.0) and rng.random() < self.monitor_opts else {}
+            mkw = rng.choice([{"event_type": "value"}, {"event_type": "status"}, {"min_period": 0.5}]) if getattr(self, "monitor_opts", 0.0) and rng.random() < self.monitor_opts else {}
             body.append(msg(S, "monitor", mon, run=run, name=f"{mon}_monitor", **mkw))  # extra kwargs go to obj.subscribe()
         fl = None
         if self.flyers and rng.random() < fly:
